@@ -1,21 +1,25 @@
 """C02 - with the throwing policy a fixed string stays inside its buffer and failed operations change nothing.
 
  Same specifications and harness as C01, Policy = "throwing":
+ 0. Compile-time: the signature table (harness/fixedstring/sig_probe.cpp) - the overloads the calls below need exist and
+    return what std::basic_string returns (a changed signature is a VIOLATION, not a driver that does not build).
  1. TLC: FixedString.tla (L1): every action has the failing outcomes the standard requires (length_error
     when the result would be longer than N, out_of_range when a position exceeds the relevant length / at(i)
     with i >= size()); action property FailedChangesNothing; laws of the specification itself.
  2. TLC: FixedStringImpl.tla (L2): no cell beyond index N is ever written, a failing call is a stutter on the
-    buffer (the length is published only after the check); refinement of L1.
+    buffer (the length is published only after the check); refinement of L1 (N = 2 all layouts; N = 3, where the
+    direction of the overlapping copies matters); sources inside the object itself included.
  3. S->C: every L1 transition at N = 3 - all 40 strings (lengths 0..N) x every operation x positions and
     counts 0..N+2 and npos - replayed on real packed and strlen objects placed between guard bytes, sources in
     exact-size heap buffers under AddressSanitizer; the exception class and the complete state after the call
-    (= the state before it, for a failing call) are compared with TLC's.
- 4. C->S: seeded random scripts biased towards the capacity boundary and towards failing calls at
-    N in {2, 16, 255, 256} (packed, size field, strlen, char16_t), validated by TLC.
+    (= the state before it, for a failing call) are compared with TLC's.  Thorough: N = 4, stratified sample.
+ 4. C->S: the upstream tests' call sequences (incl. their EXPECT_THROW calls) and seeded random scripts biased towards
+    the capacity boundary and towards failing calls at N in {2, 16, 200, 255, 256} (packed, size field, strlen,
+    char16_t; drivers built by g++ / clang++ at -O1 / -O2, with and without NDEBUG), validated by TLC.
 """
 import json, os
 from concurrent.futures import ThreadPoolExecutor
-from vlib import core, fixedstring as fx
+from vlib import core, fixedstring as fx, fixedstring_upstream as up
 from vlib.core import MachineryError
 
 PID = "C02"
@@ -26,17 +30,30 @@ def replay(ctx, path):
 
 
 def run(ctx):
+    started = []        # background work (TLC enumerations) that must not outlive the run, whatever way it ends
+    try:
+        return _run(ctx, started)
+    finally:
+        for x in started:
+            x.close()
+
+
+def _run(ctx, started):
     q = ctx.quick
-    findings = core.load_findings(PID)
+    findings = fx.effective_findings(PID)
     cls = fx.classify(findings)
     mk = fx.make_cfg
 
     s2c_targets = {"p3": [mk("char", 3, 0, 1)], "s3": [mk("char", 3, 1, 1)]}
     if not q:
         s2c_targets["p3"].append(mk("char16_t", 3, 0, 1))
-    rnd_cfgs = [mk("char", 2, 0, 1), mk("char", 16, 0, 1), mk("char", 255, 0, 1), mk("char", 256, 0, 1), mk("char", 16, 1, 1), mk("char16_t", 16, 0, 1)]
+    # (the build flavours - compiler, optimisation level, NDEBUG - ride on configurations that are needed anyway)
+    # p16t, s16t and p255t are also the configurations of the upstream tests (one driver build serves both)
+    rnd_cfgs = [mk("char", 2, 0, 1, fl="c"), mk("char", 16, 0, 1), mk("char", 200, 0, 1, fl="co"), mk("char", 255, 0, 1), mk("char", 256, 0, 1, fl="o"),
+                mk("char", 16, 1, 1), mk("char16_t", 16, 0, 1)]
     if not q:
-        rnd_cfgs += [mk("char", 1, 0, 1), mk("char", 15, 0, 1), mk("char", 300, 0, 1), mk("char", 1, 1, 1), mk("char", 4, 1, 1), mk("char16_t", 300, 0, 1)]
+        rnd_cfgs += [mk("char", 1, 0, 1), mk("char", 15, 0, 1, fl="z"), mk("char", 300, 0, 1, fl="co"), mk("char", 1, 1, 1), mk("char", 4, 1, 1, fl="o"),
+                     mk("char16_t", 300, 0, 1), mk("char", 128, 0, 1), mk("wchar_t", 16, 0, 1), mk("char32_t", 16, 0, 1, fl="c")]
     ref_cfgs = [mk("char", 16, 0, 0, ref=1)]
 
     sim_cfgs = []
@@ -44,14 +61,25 @@ def run(ctx):
         s2c_targets["p4"] = [mk("char", 4, 0, 1)]
         s2c_targets["s4"] = [mk("char", 4, 1, 1)]
         sim_cfgs = [("packed", mk("char", 8, 0, 1)), ("strlen", mk("char", 8, 1, 1))]
-    all_cfgs = [c for v in s2c_targets.values() for c in v] + rnd_cfgs + ref_cfgs + [c for _, c in sim_cfgs]
+    # (the one upstream call that is C01's open finding - resize(n) growing the string - is left to C01)
+    up_scripts = [(n, mk(**kw), ev) for n, kw, ev in up.scripts() if kw["thr"] and not n.endswith("-resize1grow")]
+    directed = fx.merge_by_cfg("directed", up_scripts + [("alias-%d" % i, mk(**kw), ev) for i, (kw, ev) in enumerate(fx.ALIAS_DIRECTED) if kw["thr"]])
+    all_cfgs = [c for v in s2c_targets.values() for c in v] + rnd_cfgs + ref_cfgs + [c for _, c in sim_cfgs] + [c for _, c, _ in directed]
     pool = ThreadPoolExecutor(max_workers=1)
-    fut = pool.submit(fx.build_drivers, ctx, all_cfgs)
+    fut = pool.submit(fx.prepare, ctx, all_cfgs)
+    # the S->C enumerations do not depend on the include tree: TLC starts on them now, the replays use them later
+    S2C = (("p3", ["FixedString_s2c_p3_throwing.cfg", "FixedString_s2c_p3_throwing_pair.cfg"]),
+           ("s3", ["FixedString_s2c_s3_throwing.cfg", "FixedString_s2c_s3_throwing_pair.cfg"]),
+           ("p4", ["FixedString_s2c_p4_throwing.cfg", "FixedString_s2c_p4_throwing_pair.cfg"]),
+           ("s4", ["FixedString_s2c_s4_throwing.cfg", "FixedString_s2c_s4_throwing_pair.cfg"]))
+    enums = fx.Enumerations(ctx, [cfg for key, cfgs in S2C if key in s2c_targets for cfg in cfgs], ahead=3 if q else 2)
+    started.append(enums)
 
     # ---- 1. L1 model checking, throwing policy
-    r = {"violated": None} if fx.SKIP_MC else core.tlc_model_check(ctx, "FixedStringMC", "FixedString_mc_c02.cfg" if q else "FixedString_mc_c02_thorough.cfg",
-                             "L1 (throwing policy): failed calls change nothing, laws, observer purity", coverage=not q, heap="8g",
-                             timeout=2400, workers=fx.WORKERS)
+    with fx.stage(ctx, "l1_model_check"):
+        r = {"violated": None} if fx.SKIP_MC else fx.retry_killed(lambda: core.tlc_model_check(ctx, "FixedStringMC", "FixedString_mc_c02.cfg" if q else "FixedString_mc_c02_thorough.cfg",
+                               "L1 (throwing policy): failed calls change nothing, laws, observer purity", coverage=not q, heap="3g",
+                               timeout=2400, workers=fx.WORKERS))
     if r["violated"]:
         raise MachineryError("L1 spec FixedString.tla violates its own theorem %s (oracle bug), see %s" % (r["violated"], r["outfile"]))
     if r.get("coverage"):
@@ -60,39 +88,48 @@ def run(ctx):
         ctx.notes["l1_mc_coverage_distinct_generated"] = r["coverage"]
 
     # ---- 2. L2: writes stay inside the N+1 cells, failing calls are stutters on the buffer, refinement (advisory)
-    for cfg in [] if fx.SKIP_MC else (["FixedStringImpl_mc_c02.cfg"] if q else ["FixedStringImpl_mc_c02.cfg", "FixedStringImpl_mc_c02_thorough.cfg"]):
-        if os.path.exists(os.path.join(core.SPECS, cfg)):
-            r2 = core.tlc_model_check(ctx, "FixedStringImplMC", cfg, "L2 (throwing policy): no write beyond cell N, failing calls stutter, refines L1",
-                                      heap="8g", timeout=2400, workers=fx.WORKERS)
-            if r2["violated"]:
-                ctx.drift.append("FixedStringImpl.tla (throwing) does not refine FixedString.tla or breaks its buffer invariants (%s); see %s" % (r2["violated"], r2["outfile"]))
+    with fx.stage(ctx, "l2_refinement"):
+        fx.l2_model_check(ctx, ["FixedStringImpl_mc_c02.cfg", "FixedStringImpl_mc_n3q_c02.cfg"] if q else ["FixedStringImpl_mc_c02.cfg", "FixedStringImpl_mc_n3q_c02.cfg", "FixedStringImpl_mc_c02_thorough.cfg"],
+                        "L2 (throwing policy): no write beyond cell N, failing calls stutter, refines L1")
 
-    drivers = fut.result()
+    with fx.stage(ctx, "wait_for_driver_builds"):
+        drivers = fut.result()
     pool.shutdown()
+    have = lambda c: c["name"] in drivers
 
-    # ---- 3. C->S random scripts with many failing calls
-    scripts = []
+    # ---- 3. C->S: the upstream tests' call sequences (they include the suite's EXPECT_THROW calls), directed aliasing executions,
+    #         random scripts with many failing calls
+    scripts = [x for x in directed if have(x[1])]
     for c in rnd_cfgs:
-        big = c["n"] >= 255
-        nexec, nops = ((12, 40) if big else (40, 45)) if q else ((80, 50) if big else (400, 60))
+        if not have(c):
+            continue
+        big = c["n"] >= 128
+        nexec, nops = ((12, 40) if big else (40, 45)) if q else ((80, 50) if big else (250, 60))
         lines = fx.random_script(ctx.seed + 101, c, nexec, nops, fail_bias=0.3)
-        for i, ch in enumerate(fx.chunk_by_reset(lines, 1 if q else 3)):
+        for i, ch in enumerate(fx.chunk_by_reset(lines, 1 if q else 2)):
             scripts.append(("rnd-%s-%d" % (c["name"], i), c, ch))
     for lay, c in sim_cfgs:
+        if not have(c):
+            continue
         lines, nw = fx.sim_scripts(ctx, "FixedString_sim_%s_throwing.cfg" % lay, c, 500, 40, c["name"])
         ctx.notes.setdefault("simulation_walks", {})[c["name"]] = nw
         for i, ch in enumerate(fx.chunk_by_reset(lines, 2)):
             scripts.append(("sim-%s-%d" % (c["name"], i), c, ch))
     for c in ref_cfgs:
-        scripts.append(("ref-" + c["name"], c, fx.random_script(ctx.seed + 117, c, 30 if q else 200, 45, fail_bias=0.3, allow_known=True)))
+        if have(c):
+            scripts.append(("ref-" + c["name"], c, fx.random_script(ctx.seed + 117, c, 30 if q else 200, 45, fail_bias=0.3, allow_known=True)))
     for fnd in findings:
         if "probe" in fnd:
             pc = mk(**fnd["probe"]["cfg"])
             if pc["name"] not in drivers:
-                drivers.update(fx.build_drivers(ctx, [pc]))
-            scripts.append(("probe-" + fnd["id"], pc, fnd["probe"]["script"]))
-    ctx.sample({"script": [json.dumps(x) for x in scripts[1][2][:10]]})
-    res = fx.run_and_validate(ctx, scripts, drivers, findings)
+                drivers.update(fx.build_drivers(ctx, [pc], tolerate=True))
+            if pc["name"] in drivers:
+                scripts.append(("probe-" + fnd["id"], pc, fnd["probe"]["script"]))
+    rs = [x for x in scripts if x[0].startswith("rnd-")]
+    if rs:
+        ctx.sample({"script": [json.dumps(x) for x in rs[min(1, len(rs) - 1)][2][:10]]})
+    with fx.stage(ctx, "c2s_run_and_validate"):
+        res = fx.run_and_validate(ctx, scripts, drivers, findings) if scripts else []
     nfail = 0
     for p, r in res:
         try:
@@ -107,16 +144,18 @@ def run(ctx):
     # ---- 4. S->C: every L1 transition at N = 3, throwing policy, including every failing call
     opcount, failcount = {}, 0
     tot_replayed = 0
-    for key, tcfgs in (("p3", ["FixedString_s2c_p3_throwing.cfg", "FixedString_s2c_p3_throwing_pair.cfg"]),
-                       ("s3", ["FixedString_s2c_s3_throwing.cfg", "FixedString_s2c_s3_throwing_pair.cfg"]),
-                       ("p4", ["FixedString_s2c_p4_throwing.cfg", "FixedString_s2c_p4_throwing_pair.cfg"]),
-                       ("s4", ["FixedString_s2c_s4_throwing.cfg", "FixedString_s2c_s4_throwing_pair.cfg"])):
+    for key, tcfgs in S2C:
         if key not in s2c_targets:
             continue
-        if fx.FAILFAST and ctx.violations:
-            break
-        targets = [(c, drivers[c["name"]], 1.0) for c in s2c_targets[key]]
-        res = fx.s2c(ctx, targets, tcfgs)
+        if (fx.FAILFAST and ctx.violations) or len(ctx.violations) >= fx.ENOUGH_VIOLATIONS:
+            ctx.log("S->C %s skipped: %d violations are reported already" % (key, len(ctx.violations)))
+            continue
+        n4 = key in ("p4", "s4")
+        targets = [(c, drivers[c["name"]], fx.KEEP_N4 if n4 else 1.0 if i == 0 else (0.25, 60)) for i, c in enumerate(s2c_targets[key]) if have(c)]
+        if not targets:
+            continue
+        with fx.stage(ctx, "s2c_" + key):
+            res = fx.s2c(ctx, targets, tcfgs, enums=enums)
         for c, drv, _ in targets:
             tot, mism = res[c["name"]]
             tot_replayed += tot["replayed"]
@@ -124,8 +163,9 @@ def run(ctx):
             ctx.cov["evaluations"] += tot["events"]
             for op, n in tot["ops"].items():
                 opcount[op] = opcount.get(op, 0) + n
-            ctx.notes.setdefault("s2c", {})[c["name"]] = {k: tot.get(k, 0) for k in ("tlc_generated", "transitions", "replayed", "events", "failing")}
+            ctx.notes.setdefault("s2c", {})[c["name"]] = {k: tot.get(k, 0) for k in ("tlc_generated", "transitions", "replayed", "events", "failing", "strata", "strata_sampled")}
             fx.confirm_mismatches(ctx, c, drv, mism, cls)
+    enums.close()
     ctx.notes["s2c_calls_replayed_per_action"] = opcount
     fx.vacuity(ctx, opcount, scripts)
     ctx.notes["s2c_failing_calls_replayed"] = failcount
@@ -133,18 +173,21 @@ def run(ctx):
 
     ctx.log("S->C: %d calls compared (%d failing)" % (tot_replayed, failcount))
 
-    return core.finish(
+    return fx.conclude(
         ctx, "model_checking",
         rule="TLC: L1 with Policy=throwing exhaustive for N=2 (FailedChangesNothing, laws); L2: writes only to cells 0..N, failing calls "
              "stutter on the buffer; S->C: every L1 transition at N=3 out of all %s strings x every operation x positions/counts 0..N+2, npos "
-             "(second object from representatives), i.e. every failing and every succeeding call, replayed on real packed and strlen objects "
+             "(second object from representatives, sources inside the object itself included), i.e. every failing and every succeeding call%s, replayed on real packed and strlen objects "
              "between guard bytes under AddressSanitizer with exact-size source buffers; exception class, state after the call and guards "
-             "compared with TLC's; C->S: seeded scripts biased to the boundary and to failing calls at N in {2,16,255,256}, strlen 16, char16_t, "
-             "validated by TLC. A case is one call with its exception class / result and the full projection of both objects."
-             % ("40" if q else "121"),
+             "compared with TLC's; C->S: the upstream tests' call sequences and seeded scripts biased to the boundary and to failing calls at N in "
+             "{2,16,200,255,256}, strlen 16, char16_t, drivers built by g++ and clang++ at -O1/-O2 with and without NDEBUG, validated by TLC. A case is one "
+             "call with its exception class / result and the full projection of both objects."
+             % ("40" if q else "40 (N=4: 121, stratified sample: strata (pre-state, operation) of at most %d calls completely, larger ones with probability "
+                "max(%.2f, %d/size) per call)" % (fx.STRATUM_MIN, fx.KEEP_N4, fx.STRATUM_MIN), ""),
         assumptions=["guards: 32 bytes on each side of the object inside one exact-size heap block (beyond them AddressSanitizer watches)",
                      "reads outside source ranges are observed by AddressSanitizer for pointer / iterator sources (exact-size heap buffers); "
                      "std::basic_string sources may live in the string's own small buffer",
                      "when a call has both a bad position and an over-long result the standard fixes no order: either exception is accepted",
-                     "the silent policy performs no check (capacity is then a precondition); C02 says nothing about it"],
+                     "the silent policy performs no check (capacity is then a precondition); C02 says nothing about it",
+                     "XTL_NO_EXCEPTIONS (a failing check terminates instead of throwing) is outside C02: the statement is about the exceptions"],
         exhaustive=False)
